@@ -5,6 +5,25 @@ PY_SUBSET = ('Python semantics of the executed subset as encoded by pyvc.symexec
              'sequences as len/at theories, path-by-path execution, loops cut at invariants)')
 
 PROPS = {
+    'C07': {
+        'level': 'exploration',
+        'custom': [('contracts.b_ext', 'bounded_refactorings')],
+        'assumptions': ['bounded contract check only: nothing is proved about C07 (sympy / pandas code is outside the '
+                        'VC generator); expressions are compared numerically on a stated grid of inputs'],
+        'explanation': 'bounded contract check only',
+    },
+    'C08': {
+        'level': 'exploration',
+        'custom': [('contracts.b_ext', 'bounded_structural_setters')],
+        'assumptions': ['bounded contract check only: nothing is proved about C08'],
+        'explanation': 'bounded contract check only',
+    },
+    'C09': {
+        'level': 'exploration',
+        'custom': [('contracts.b_ext', 'bounded_extensions')],
+        'assumptions': ['bounded contract check only: nothing is proved about C09'],
+        'explanation': 'bounded contract check only',
+    },
     'C03': {
         'level': 'other',
         'proof': [('contracts.ignored', None)],
